@@ -1,12 +1,13 @@
 import inspect
 import traceback
 from collections.abc import Callable
-from typing import Any, Literal, TypeAlias, TypeVar
+from typing import Annotated, Any, Literal, TypeAlias, TypeVar
 
 import pydantic_core
 import pykka
 from pydantic import (
     BaseModel,
+    BeforeValidator,
     ConfigDict,
     Field,
     SerializerFunctionWrapHandler,
@@ -34,17 +35,30 @@ Unset = UnsetType()
 
 
 RequestId: TypeAlias = str | int | float
-Param: TypeAlias = (
-    # The complex types we support in the core API:
-    models.Artist
-    | models.Album
-    | models.Track
-    | models.Playlist
-    | models.Ref
-    | models.Image
-    # This covers any primitive JSON types:
-    | Any
-)
+
+# The models we support in the core API, by the name they are tagged with:
+_MODELS: dict[str, type[BaseModel]] = {
+    name: getattr(models, name) for name in models.__all__ if name != "RefType"
+}
+
+
+def _decode_models(value: Any) -> Any:
+    """Replace any JSON object tagged with ``__model__`` by the model it describes."""
+    if isinstance(value, list):
+        return [_decode_models(item) for item in value]
+    if isinstance(value, dict):
+        model_name = value.get("__model__")
+        if isinstance(model_name, str) and model_name in _MODELS:
+            try:
+                return _MODELS[model_name].model_validate(value)
+            except TypeError as exc:  # E.g. TlTrack without its required arguments
+                raise ValueError(str(exc)) from exc
+        return {key: _decode_models(item) for key, item in value.items()}
+    return value
+
+
+# Any JSON value. Objects without a ``__model__`` tag are passed on as plain dicts.
+Param: TypeAlias = Annotated[Any, BeforeValidator(_decode_models)]
 
 
 class Request(BaseModel):
